@@ -10,6 +10,7 @@ import "fmt"
 
 type instM struct {
 	Pre, Post, Aux, Catch uint32
+	Atom, AtomR           uint32
 	G                     uint32
 	Closed                bool
 	Code                  uint32
@@ -18,7 +19,7 @@ type instM struct {
 func (t *instM) String() string {
 	// tail=0: no op ever completes a write to it (the spec's rule: an out-of-bounds store / fill
 	// writes nothing); aux is only written by deepok (a trapping instruction produces no value to store).
-	return fmt.Sprintf("pre=%d post=%d aux=%d catch=%d tail=0 g=%d closed=%v size=%d", t.Pre, t.Post, t.Aux, t.Catch, t.G, t.Closed, PageSize)
+	return fmt.Sprintf("pre=%d post=%d aux=%d catch=%d atom=%d/%d tail=0 g=%d closed=%v size=%d", t.Pre, t.Post, t.Aux, t.Catch, t.Atom, t.AtomR, t.G, t.Closed, PageSize)
 }
 
 func (t *instM) close(code uint32) {
@@ -48,6 +49,9 @@ func (w *modelW) op(t *instM, kind int, k uint32) {
 	case KOk:
 	case KDeepOk:
 		t.Aux = DeepFrames
+	case KOkAtomic:
+		t.Atom++
+		t.AtomR = 1 // notify wakes nobody (0), wait32 with a different expected value returns 1
 	case KDeepHost:
 		t.Aux = DeepFrames + 1 // the host function at the bottom returns 1
 	case KProcExit0, KProcExit3:
@@ -64,6 +68,9 @@ func (w *modelW) op(t *instM, kind int, k uint32) {
 	case KCloseB7:
 		w.B.close(7) // the caller (A) is not affected
 	default:
+		if isAOOB(kind) {
+			panic(mfail{"trap:oobmem"})
+		}
 		panic(mfail{trapClass[kind]})
 	}
 	t.Post = k
